@@ -105,6 +105,14 @@ func (e *Exec) call(s *State, res ssa.Value, cc *ssa.CallCommon, site ssa.Instru
 }
 
 func (e *Exec) callVal(s *State, cc *ssa.CallCommon, args []Val, setRes func(*State, Val), rest func(*State)) bool {
+	if len(e.frames) == 0 {
+		// call log of the function under verification (its own call sites only)
+		if cc.IsInvoke() {
+			s.calls = append(s.calls, cc.Method.FullName())
+		} else if sc := cc.StaticCallee(); sc != nil {
+			s.calls = append(s.calls, sc.String())
+		}
+	}
 	sig := cc.Signature()
 	rt := resultType(sig)
 	unknown := func(why string, havoc bool) bool {
